@@ -63,20 +63,20 @@ CHECKS["C15"] = {
             "randoms symbolic, z3 shows that each key, IV and MAC secret installed in the Decryptor equals the RFC key schedule's "
             "value under every interpretation of the hash primitives, hence under the real ones. Sampled instances are recomputed "
             "with real hashes on the real code.",
-    "note": TRUST + "Primitives are arbitrary functions; their bit-level correctness (OpenSSL) is trusted. QUIC key schedules are covered once the QUIC harness is in place (see DESIGN.md).",
+    "note": TRUST + "Primitives are arbitrary functions; their bit-level correctness (OpenSSL) is trusted. QUIC: QuicSession.keys and every key-update generation of QuicSession.decryptors are compared with RFC 9001 (initial, handshake, 0-RTT, 1-RTT, header protection, 'quic ku').",
 }
 CHECKS["C13"] = {
     "technique": "self-composition under symbolic execution: each TLS scenario runs with and without metadata export inside one path and z3 compares the two outputs",
-    "text": "For the C01 pipeline scenarios (all versions, every handshake shape, symbolic contents) the packets of the plain export "
+    "text": "QUIC: for the C02 scenarios the stream data of the plain export reappears in order inside the -a export. TLS: for the C01 pipeline scenarios (all versions, every handshake shape, symbolic contents) the packets of the plain export "
             "appear in the -a export in the same order with the same payloads, every additional packet carries a handshake/CCS/alert "
             "record or decrypted handshake message of the scenario, and the ClientHello/ServerHello records appear verbatim.",
-    "note": TRUST + "Ideal cryptography / recorder scapy / dpkt model as in C01. TLS half of the property; the QUIC half is added with the QUIC harness (DESIGN.md section 4).",
+    "note": TRUST + "Ideal cryptography / recorder scapy / dpkt model as in C01/C02. QUIC: the stream data of the plain export must be found, in order and direction, as contiguous runs inside the -a datagrams.",
 }
 CHECKS["C08"] = {
     "technique": "self-composition under symbolic execution: the pipeline runs on packets[:j] and on all packets with a solver-chosen cut index j; z3 decides the byte-prefix relation",
-    "text": "For the C01 pipeline scenarios, with one record per segment and with records cut into small segments, and for every cut "
+    "text": "For the C01 (TLS) and C02 (QUIC) scenarios, with one record per segment and with records cut into small segments, and for every cut "
             "index j, the export of the truncated capture is, per direction, a byte-prefix of the export of the full capture.",
-    "note": TRUST + "Models as in C01. TLS half of the property; the QUIC half is added with the QUIC harness.",
+    "note": TRUST + "Models as in C01/C02 (TLS and QUIC scenarios).",
 }
 CHECKS["C10"] = {
     "technique": "symbolic execution of main.handle_packet / Session / OutputBuilder / QuicSession.build_output / QUICOutputbuilder with symbolic ports, symbolic -p ports and a symbolic port map; real argparse on the syntax axis; main.run end to end with stub reader/writer",
